@@ -248,6 +248,21 @@ def big_rows(ctx: Ctx):
             ctx.add_cov(f"isogeny_exceptional_u_G{d}", len(exc_us))
         except Exception as e:  # noqa: BLE001 -- the tables no longer have this shape: the exceptional inputs are skipped
             ctx.note(f"isogeny_exceptional_u_G{d}_skipped", f"{type(e).__name__}: {e}"[:120])
+        # u for which the projective denominator of the SWU output is exactly 1 (the image is then "affine" already):
+        # -A (Z u^2 + Z^2 u^4) = 1, i.e. t^2 + t + 1/A = 0 for t = Z u^2
+        try:
+            from . import polyroots as pr
+            Fl = pr.Fld(p, d)
+            four = Fl.add(Fl.add(Fl.one, Fl.one), Fl.add(Fl.one, Fl.one))
+            sdisc = Fl.sqrt(Fl.sub(Fl.one, Fl.mul(four, Fl.inv(K.A))))
+            if sdisc is not None:
+                for sg in (sdisc, Fl.neg(sdisc)):
+                    t_ = Fl.mul(Fl.sub(sg, Fl.one), Fl.inv(Fl.add(Fl.one, Fl.one)))
+                    r_ = Fl.sqrt(Fl.mul(t_, Fl.inv(K.Z)))
+                    if r_ is not None:
+                        us += [r_, Fl.neg(r_)]
+        except Exception:  # noqa: BLE001 -- input generation only
+            pass
         for u in us:
             row = {"op": "swu", "g": d, "u": L(u)}
             try:
@@ -276,7 +291,11 @@ def big_rows(ctx: Ctx):
                 row.update({"x1": L(x1), "s": L(s), "sq": sq, "xo": L(xo), "yo": L(yo)})
                 rows.append(row)
                 # isogeny image and the composed map
-                for name, pt in (("iso_map", iso_fn(X, Y, D)), ("map_to_curve", map_fn(el))):
+                outs = [("iso_map", iso_fn(X, Y, D)), ("map_to_curve", map_fn(el))]
+                if Dc != K.zero:        # the same point handed over in affine form (z = 1)
+                    mk_ = (lambda c_: cls(c_[0])) if d == 1 else (lambda c_: cls(list(c_)))
+                    outs.append(("iso_map_affine", iso_fn(mk_(xo), mk_(yo), mk_(K.one))))
+                for name, pt in outs:
                     c = [tuple(int(t) for t in (v.coeffs if d == 2 else (v.n,))) for v in pt]
                     iso_row = {"op": "iso", "g": d, "X": L(c[0]), "Y": L(c[1]), "Z": L(c[2]), "fn": name, "u": L(u)}
                     if c[2] == K.zero:          # the identity: the spec needs the SWU image to decide whether that is right
